@@ -45,6 +45,7 @@ ASSUMPTIONS = [
 ]
 
 GEN_FILE = LEAN / "CogentModel" / "Gen" / "C19Program.lean"
+GEN_WRITERS_FILE = LEAN / "CogentModel" / "Gen" / "C19Writers.lean"
 
 
 def generate(ctx):
@@ -62,7 +63,18 @@ def generate(ctx):
     ctx.notes.append("c19_atomic2lean: " + json.dumps({k: info.get(k) for k in ("code", "store_writes", "preconditions")})[:1200])
     if lean is not None and tr.write_if_changed(GEN_FILE, lean):
         ctx.notes.append("Gen/C19Program.lean was rewritten (the translated source differs from the last generated text)")
-    return [f"c19_atomic2lean: {p}" for p in problems]
+    problems = [f"c19_atomic2lean: {p}" for p in problems]
+    # the call sites of atomic_write in all of src/cogent3 -> Gen/C19Writers.lean (Props/C19.lean: writer_call_sites_covered)
+    from translator import c19_writers2lean as tw
+
+    try:
+        wlean, sites, wproblems = tw.translate(SRC)
+    except (SyntaxError, OSError) as e:
+        return problems + [f"c19_writers2lean: {e}"]
+    ctx.notes.append("c19_writers2lean: " + json.dumps([[s["file"], s["func"], s["protocol"], s["mode"]] for s in sites])[:1500])
+    if wlean is not None and tr.write_if_changed(GEN_WRITERS_FILE, wlean):
+        ctx.notes.append("Gen/C19Writers.lean was rewritten (the call sites of atomic_write differ from the last generated table)")
+    return problems + [f"c19_writers2lean: {p}" for p in wproblems]
 
 
 STANDARD = ("plain", "gz", "json", "phylip")
@@ -352,9 +364,74 @@ def correspondence(ctx):
         + " — THE model (Job.cfg, the subject of atomic_all_prefixes / fault_leaves_old_and_no_temp) is commit=replace,guarded=True,"
         "with_block=True,body_unlink=False; any other variant is reported as a correspondence failure"
     )
+    _corr_bare(ctx, out)
+    _corr_sites(ctx, out)
     _resume_corr(ctx, out)
     _fine_corr(ctx, out)
     return out
+
+
+def _corr_bare(ctx, out):
+    """the bare-object protocol `aw = atomic_write(p); aw.write(ch)*; aw.close()`: the translated methods run by AtomicSite.runBare vs
+    the real object — no fault, and every call k raising: calls issued, whether the exception reaches the caller, destination, temp dir"""
+    for present in (True, False):
+        cfg = ("atomic_bare", "plain", present)
+        data = _collect(ctx, cfg)
+        base = data["base"]
+        inp = dict(writer="atomic_bare", target="plain", present=present)
+        if base.get("exc") or base.get("exit") != 0:
+            add_failure(out, "corr", "bare atomic_write object failed on the no-fault path", inp, "success", base.get("exc"), confirmed=False)
+            continue
+        chunks = [_enc(c) for c in base["chunks"]]
+        mcfg = dict(commit="replace", guarded=True, with_block=True, body_unlink=False, close_in_body=False, chunks=chunks, zip_member=None)
+        dest0 = _model_dest(base["before"], "standard")
+        keys = [None] + sorted(data["faults"])
+        res = ctx.driver.batch([("gen_bare", dict(cfg=mcfg, dest=dest0, k=k)) for k in keys])
+        for k, mr in zip(keys, res):
+            real = base if k is None else data["faults"][k]
+            out["evaluations"] += 1
+            mc, mtmp = _model_state_canon(mr["state"])
+            exp = [_trace_shape(mr["trace"]), mr["raised"], mc, mtmp]
+            got = [_trace_shape(real.get("trace") or []), real.get("exc") is not None, _canon_state(real["after"]), bool(real["after"]["leftover"])]
+            bump(out, "gen_bare", "no-fault" if k is None else ("raised, temp dir left" if mr["raised"] and mtmp else ("raised" if mr["raised"] else "swallowed")))
+            if exp != got:
+                add_failure(out, "corr", "bare-object protocol (aw.write(); aw.close()): the translated methods (Gen/C19Program bareWrite / bareClose under "
+                            "AtomicSite.runBare) differ from the real object: calls issued / exception / destination / temp dir", dict(inp, mode="fault" if k is not None else "trace", k=k),
+                            exp, got, confirmed=False)
+            elif k is not None:
+                out["nontrivial"].add(("atomic_bare", "plain", present, "gen-bare", k))
+
+
+def _corr_sites(ctx, out):
+    """the call-site table translated from src/cogent3 (Gen/C19Writers.lean) vs the call sites the real writers go through: every
+    atomic_write constructed inside cogent3 during a traced run must be a row of the table, with the same tmpdir= / in_zip= use and
+    the same protocol (entered through a with statement or not)"""
+    table = ctx.driver.batch([("sites", {})])[0]
+    rows = {}
+    for r in table:
+        rows.setdefault((r["file"], r["func"]), []).append(r)
+    seen = set()
+    for cfg, data in sorted(ctx.__dict__.get("_c19data", {}).items()):
+        for st in data["base"].get("sites") or []:
+            out["evaluations"] += 1
+            key = (st["file"], st["func"])
+            inp = dict(writer=cfg[0], target=cfg[1], present=cfg[2], site=st)
+            cands = rows.get(key)
+            if not cands:
+                add_failure(out, "corr", "a writer constructs atomic_write at a call site that is not in the translated table (Gen/C19Writers.lean)", inp,
+                            sorted(rows), key, confirmed=False)
+                continue
+            ok = [r for r in cands if r["tmpdir_arg"] == st["tmpdir_arg"] and r["in_zip_arg"] == st["in_zip_arg"]
+                  and (r["protocol"] == "withBlock") == st["entered"]]
+            if not ok:
+                add_failure(out, "corr", "call site of atomic_write: the translated row (protocol, tmpdir=, in_zip=) differs from how the real writer uses the object",
+                            inp, cands, st, confirmed=False)
+                continue
+            seen.add(key)
+            bump(out, "call_site", f"{st['file']}:{st['func']}:{'with' if st['entered'] else 'bare/returned'}")
+            out["nontrivial"].add(("site",) + key + (cfg[0], cfg[1]))
+    ctx.notes.append(f"call sites of atomic_write: {len(table)} in the translated table ({sum(1 for r in table if r['covered'])} covered by the outcome theorems), "
+                     f"{len(seen)} distinct (file, function) reached by the traced writers: {sorted(seen)}")
 
 
 def _gen_corr(ctx, out, cfg, data, mcfg, own):
@@ -440,6 +517,39 @@ def _corr_tmpdir(ctx, out, cfg):
         add_failure(out, "corr", "tmpdir= route: final state differs from the model", dict(inp, variant=cl), [mr["caller_file_kept"], mtext], [real_keeps, _canon_state(base["after"])], confirmed=False)
     else:
         out["nontrivial"].add((w, t, present, "tmpdir", cl))
+    # every kill point and every raised OSError on this route: destination, temp file left, the caller's directory and file
+    def real_view(r):
+        left = set(r["after"]["leftover"])
+        return [_canon_state(r["after"]), bool(left - set(CALLER_FILES)), CALLER_FILES[0] in left, CALLER_FILES[1] in left]
+
+    def model_view(m):
+        d = m["dest"]
+        c = ("file", bytes(d["data"]).decode("latin-1")) if d["kind"] == "file" else (d["kind"],)
+        return [c, m["tmpfile"], m["caller_dir"], m["caller_file_kept"]]
+
+    if cl == "unlink_file":
+        dest0 = _model_dest(base["before"], "standard")
+        ks = sorted(data["kills"])
+        for k, m in zip(ks, ctx.driver.batch([("crash_tmp", dict(cfg=mcfg, dest=dest0, k=k)) for k in ks])):
+            out["evaluations"] += 1
+            bump(out, "tmpdir_route", "kill")
+            if model_view(m) != real_view(data["kills"][k]):
+                add_failure(out, "corr", "tmpdir= route: state after a kill differs from the model (crashStateTmp: destination, temp file, caller's directory / file)",
+                            dict(inp, mode="kill", k=k), model_view(m), real_view(data["kills"][k]), confirmed=False)
+            elif chunks:
+                out["nontrivial"].add((w, t, present, "tmpdir-kill", k))
+        fk = sorted(data["faults"])
+        for k, m in zip(fk, ctx.driver.batch([("fault_tmp", dict(cfg=mcfg, dest=dest0, k=k)) for k in fk])):
+            real = data["faults"][k]
+            out["evaluations"] += 1
+            bump(out, "tmpdir_route", "fault")
+            exp = model_view(m) + [_trace_shape(m["trace"])]
+            got = real_view(real) + [_trace_shape(real.get("trace") or [])]
+            if exp != got:
+                add_failure(out, "corr", "tmpdir= route: trace / state after a raised OSError differs from the model (faultTraceTmp / faultStateTmp)",
+                            dict(inp, mode="fault", k=k), exp, got, confirmed=False)
+            elif chunks:
+                out["nontrivial"].add((w, t, present, "tmpdir-fault", k))
     if cl != "unlink_file":
         add_failure(out, "corr", "tmpdir= route: the real trace is not that of THE model (programTmp … unlinkFile) but of the historical variant that "
                     "removes the caller's directory (historical_tmpdir_route_removed_callers_dir)", dict(inp, variant=cl), "unlink_file", cl, confirmed=False)
